@@ -1367,7 +1367,8 @@ class HSM2Dongle:
 
             # How many bytes to send as the first block chunk
             bytes_requested = response[self.OFF.DATA]
-        except ValueError as e:
+        except (ValueError, OverflowError) as e:
+            # (an MM payload size that does not fit in two bytes overflows)
             self.logger.error("Computing %s metadata: %s", header_name, str(e))
             return (False, responses.ERROR_COMPUTE_METADATA)
         except HSM2DongleErrorResult as e:
